@@ -217,6 +217,7 @@ def wire_consts(prog):
     return consts
 
 
+SUPPORTED_MAX_SIGNERS = 2048     # property C19: "all signer subsets and validator counts 1..=2048"
 SIZE_LIMITS = ("MAX_SIGNERS", "MTU_BYTES", "MAX_DATA_PER_SLICE", "MAX_TRANSACTION_SIZE", "MAX_DATA_PER_SHRED", "MAX_DATA_PER_SLICE_AFTER_PADDING")
 
 
@@ -434,6 +435,10 @@ def check(run, prefix="O19"):
         callers = prog.callers_of(A + "crypto::aggsig::read_bitvec")
         ok = bool(callers) and all(K.peel(c.body.operand_term(c.args[1]))[0] == "const" and K.peel(c.body.operand_term(c.args[1]))[2] == consts["MAX_SIGNERS"] for c in callers)
         o.check(ok, "read_bitvec|max-signers", "read_bitvec is called with MAX_SIGNERS (%s)" % consts["MAX_SIGNERS"], callers[0].span if callers else "")
+        # the bound is a COUNT of signers: the property quantifies over validator sets of 1..=2048, so a bitmask of exactly 2048 bits has to decode
+        # (an index-style bound of 2047 hides behind the word rounding until a bit-exact comparison is added)
+        o.check(consts["MAX_SIGNERS"] >= SUPPORTED_MAX_SIGNERS, "MAX_SIGNERS|admits-supported-maximum",
+                "MAX_SIGNERS (evaluated: %s) admits the supported maximum of %d signers" % (consts["MAX_SIGNERS"], SUPPORTED_MAX_SIGNERS), callers[0].span if callers else "")
 
     # explicit wire-schema overrides in derived impls (`#[wincode(with = ..)]` with a bounded length / container schema): a bound
     # has to admit everything the sender may emit; none is used on the reviewed tree, any new one must be reviewed here
